@@ -18,6 +18,16 @@ Section Thms.
   Variable dec_binds : blob -> option (list (N * N)).
   Variable enc_res : list (N * N) -> blob.
   Variable dec_res : blob -> option (list (N * N)).
+  Variable enc_tz : N -> blob.
+  Variable dec_tz : blob -> option N.
+  Variable enc_tts : N * N -> blob.
+  Variable dec_tts : blob -> option (N * N).
+  Variable enc_icd : list (N * N) -> blob.
+  Variable dec_icd : blob -> option (list (N * N)).
+  Variable enc_ota : list (N * N) -> blob.
+  Variable dec_ota : blob -> option (list (N * N)).
+  Variable enc_scenes : list (N * N) -> blob.
+  Variable dec_scenes : blob -> option (list (N * N)).
 
   Hypothesis rt_fab : forall i f, dec_fab (enc_fab i f) = Some (i, f).
   Hypothesis rt_basic : forall v, dec_basic (enc_basic v) = Some v.
@@ -25,35 +35,49 @@ Section Thms.
   Hypothesis rt_labels : forall v, dec_labels (enc_labels v) = Some v.
   Hypothesis rt_binds : forall v, dec_binds (enc_binds v) = Some v.
   Hypothesis rt_res : forall v, dec_res (enc_res v) = Some v.
+  Hypothesis rt_tz : forall v, dec_tz (enc_tz v) = Some v.
+  Hypothesis rt_tts : forall v, dec_tts (enc_tts v) = Some v.
+  Hypothesis rt_icd : forall v, dec_icd (enc_icd v) = Some v.
+  Hypothesis rt_ota : forall v, dec_ota (enc_ota v) = Some v.
+  Hypothesis rt_scenes : forall v, dec_scenes (enc_scenes v) = Some v.
 
   Notation state := (state blob).
   Notation kv := (kv blob).
   Notation stepf := (step blob enc_fab dec_fab enc_basic dec_basic enc_nets dec_nets enc_labels dec_labels
-                          enc_binds dec_binds enc_res dec_res).
+                          enc_binds dec_binds enc_res dec_res enc_tz dec_tz enc_tts dec_tts enc_icd dec_icd
+                          enc_ota dec_ota enc_scenes dec_scenes).
   Notation step := (stepf true).
   Notation run := (run blob enc_fab dec_fab enc_basic dec_basic enc_nets dec_nets enc_labels dec_labels
-                       enc_binds dec_binds enc_res dec_res true).
+                       enc_binds dec_binds enc_res dec_res enc_tz dec_tz enc_tts dec_tts enc_icd dec_icd
+                          enc_ota dec_ota enc_scenes dec_scenes true).
   Notation states := (states blob enc_fab dec_fab enc_basic dec_basic enc_nets dec_nets enc_labels dec_labels
-                             enc_binds dec_binds enc_res dec_res true).
-  Notation startup := (startup blob dec_fab dec_basic dec_nets dec_labels dec_binds enc_res dec_res).
-  Notation boot := (boot blob dec_fab dec_basic dec_nets dec_labels dec_binds enc_res dec_res).
+                             enc_binds dec_binds enc_res dec_res enc_tz dec_tz enc_tts dec_tts enc_icd dec_icd
+                          enc_ota dec_ota enc_scenes dec_scenes true).
+  Notation startup := (startup blob dec_fab dec_basic dec_nets dec_labels dec_binds enc_res dec_res
+                               dec_tz dec_tts dec_icd dec_ota dec_scenes).
+  Notation boot := (boot blob dec_fab dec_basic dec_nets dec_labels dec_binds enc_res dec_res
+                         dec_tz dec_tts dec_icd dec_ota dec_scenes).
   Notation load_resump := (load_resump blob enc_res dec_res).
   Notation replay := (replay blob).
   Notation kvlog := (kvlog blob).
-  Notation Inv := (Inv blob enc_fab enc_basic enc_nets enc_labels enc_binds enc_res).
-  Notation fabric_removed := (fabric_removed blob enc_binds enc_res).
+  Notation Inv := (Inv blob enc_fab enc_basic enc_nets enc_labels enc_binds enc_res enc_tz enc_tts enc_icd enc_ota enc_scenes).
+  Notation fabric_removed := (fabric_removed blob enc_binds enc_res enc_icd enc_ota enc_scenes).
 
   (** ** The store of the state is the replay of the log the operation returned *)
 
   Lemma fabric_removed_events : forall r g,
     forallb (fun e => match e with EKv _ => true | EAck _ => false end) (snd (fabric_removed r g)) = true.
-  Proof. intros r g. unfold Persist.fabric_removed. destruct (amem (r_binds r) g); reflexivity. Qed.
+  Proof.
+    intros r g. unfold Persist.fabric_removed, Persist.drop_for.
+    destruct (amem (r_scenes r) g), (amem (r_ota r) g), (amem (r_icd r) g), (amem (r_binds r) g); reflexivity.
+  Qed.
 
   Ltac opcases st :=
     repeat match goal with
     | |- context [match caller_fab blob st ?c with _ => _ end] => destruct (caller_fab blob st c)
     | |- context [match s_fs st with _ => _ end] => destruct (s_fs st) as [|?ctx ?stg]
     | |- context [match s_pase st with _ => _ end] => destruct (s_pase st)
+    | |- context [match r_tts (s_ram st) with _ => _ end] => destruct (r_tts (s_ram st)) as [[? ?]|]
     | |- context [match aget ?m ?k with _ => _ end] => destruct (aget m k) eqn:?
     | |- context [if ?b then _ else _] => destruct b
     | |- context [match ?stg with N0 => _ | Npos _ => _ end] => destruct stg
@@ -170,15 +194,18 @@ Section Thms.
     r_basic r = r_basic (s_ram st) /\
     (s_fs st = Idle -> r_nets r = r_nets (s_ram st)) /\
     r_labels r = r_labels (s_ram st) /\
-    r_binds r = r_binds (s_ram st).
+    r_binds r = r_binds (s_ram st) /\
+    r_tz r = r_tz (s_ram st) /\ r_tts r = r_tts (s_ram st) /\ r_icd r = r_icd (s_ram st) /\
+    r_ota r = r_ota (s_ram st) /\ r_scenes r = r_scenes (s_ram st).
 
   Theorem restart_committed : forall st, Inv st ->
     exists r, boot (s_kv st) = Some r /\ committed_view st r.
   Proof.
     intros st HI.
     edestruct (startup_sync blob enc_fab dec_fab enc_basic dec_basic enc_nets dec_nets enc_labels dec_labels
-                 enc_binds dec_binds enc_res dec_res)
-      as [r [ops [Hs [H1 [_ [H2 [H3 [H4 [H5 _]]]]]]]]]; try eassumption.
+                 enc_binds dec_binds enc_res dec_res enc_tz dec_tz enc_tts dec_tts enc_icd dec_icd
+                 enc_ota dec_ota enc_scenes dec_scenes)
+      as [r [ops [Hs [H1 [_ [H2 [H3 [H4 [H5 [_ [_ [_ H6]]]]]]]]]]]]; try eassumption.
     exists r. unfold Persist.boot. rewrite Hs. split; [reflexivity|]. unfold committed_view. tauto.
   Qed.
 
@@ -219,7 +246,8 @@ Section Thms.
     all: cbn [snd Persist.commit];
       try (match goal with H : fabric_removed ?r ?g = (_, ?l) |- _ =>
              pose proof (fabric_removed_events r g) as Hev; rewrite H in Hev; cbn [snd] in Hev end);
-      first [ rewrite app_assoc; apply ack_last_snoc; cbn [app forallb not_ack andb]; assumption
+      first [ repeat rewrite app_assoc; apply ack_last_snoc; rewrite ?forallb_app;
+              cbn [app forallb not_ack andb]; assumption
             | apply ack_last_noack; assumption
             | apply ack_last_noack; apply forallb_forall; intros e He; apply in_map_iff in He;
               destruct He as [k [<- _]]; reflexivity ].
@@ -256,16 +284,18 @@ Section Thms.
              rewrite forallb_forall in Hev end).
     all: first
       [ (* RemoveFabric: its events end with the OK answer *)
-        apply in_app_or in H; destruct H as [H|H]; [destruct H as [H|[]]; discriminate|];
-        apply in_app_or in H; destruct H as [H|[H|[]]]; [|discriminate];
-        specialize (Hev _ H); discriminate
+        rewrite !in_app_iff in H; cbn [In] in H;
+        repeat match goal with H0 : _ \/ _ |- _ => destruct H0 as [H0|H0] end;
+        try discriminate; try contradiction;
+        match goal with H0 : In _ _ |- _ => specialize (Hev _ H0); discriminate end
       | specialize (Hev _ H); discriminate
       | apply in_map_iff in H; destruct H as [k [E _]]; discriminate ].
   Qed.
 
   (** ** Factory reset *)
   Definition writable_keys : list N :=
-    map fabric_key fab_indices ++ [K_BASIC; K_NETS; K_LABELS; K_BIND; K_RESUMP].
+    map fabric_key fab_indices ++
+    [K_BASIC; K_NETS; K_LABELS; K_BIND; K_RESUMP; K_TZ; K_TTS; K_ICD_CLIENTS; K_OTA; K_SCENES].
 
   Theorem reset_removes_writable : forall st k, In k writable_keys ->
     aget (s_kv (fst (step st OReset))) k = None.
@@ -280,11 +310,14 @@ Section Thms.
       repeat (destruct Hk as [Hk|Hk]; [subst k; vm_compute; reflexivity|]). contradiction.
   Qed.
 
-  Definition singleton_keys : list N := [K_BASIC; K_NETS; K_LABELS; K_BIND; K_RESUMP].
+  Definition singleton_keys : list N :=
+    [K_BASIC; K_NETS; K_LABELS; K_BIND; K_RESUMP; K_TZ; K_TTS; K_ICD_CLIENTS; K_OTA; K_SCENES].
 
   Lemma fabric_removed_keys : forall r g k b, In (EKv (KStore k b)) (snd (fabric_removed r g)) -> In k singleton_keys.
   Proof.
-    intros r g k b. unfold Persist.fabric_removed. destruct (amem (r_binds r) g); cbn [snd app In]; intros H;
+    intros r g k b. unfold Persist.fabric_removed, Persist.drop_for.
+    destruct (amem (r_scenes r) g), (amem (r_ota r) g), (amem (r_icd r) g), (amem (r_binds r) g);
+      cbn [snd app In]; intros H;
       repeat (destruct H as [H|H]; [injection H as <- _; cbn; tauto|]); contradiction.
   Qed.
 
@@ -326,29 +359,31 @@ Section Thms.
   Proof.
     intros st b HI.
     edestruct (startup_sync blob enc_fab dec_fab enc_basic dec_basic enc_nets dec_nets enc_labels dec_labels
-                 enc_binds dec_binds enc_res dec_res)
-      as [r [ops [Hs [H1 [_ [H2 [H3 [H4 [H5 _]]]]]]]]]; try eassumption.
+                 enc_binds dec_binds enc_res dec_res enc_tz dec_tz enc_tts dec_tts enc_icd dec_icd
+                 enc_ota dec_ota enc_scenes dec_scenes)
+      as [r [ops [Hs [H1 [_ [H2 [H3 [H4 [H5 [_ [_ [_ H6]]]]]]]]]]]]; try eassumption.
     set (m' := aset (s_kv st) K_RESUMP b).
     assert (Hother : forall k, k <> K_RESUMP -> aget m' k = aget (s_kv st) k)
       by (intros k Hk; apply aget_aset_other; assumption).
-    unfold Persist.startup in Hs |- *.
+    unfold Persist.startup, load_opt in Hs |- *.
     rewrite (load_fabs_ext fab_indices (s_kv st) m' [])
       by (intros i Hi; apply Hother; apply in_fab_indices in Hi; rewrite fabric_key_id; unfold K_RESUMP; lia).
+    rewrite !Hother
+      by (unfold K_RESUMP, K_BASIC, K_NETS, K_BIND, K_LABELS, K_TZ, K_TTS, K_ICD_CLIENTS, K_OTA, K_SCENES; lia).
     destruct (load_fabs blob dec_fab fab_indices (s_kv st) []) as [fabs|]; [|discriminate].
-    unfold load_opt in *. rewrite !Hother by (unfold K_RESUMP, K_BASIC, K_NETS, K_BIND, K_LABELS; lia).
     destruct (match aget (s_kv st) K_BASIC with Some b0 => dec_basic b0 | None => Some basic_default end) as [bs|]; [|discriminate].
     destruct (load_resump (s_kv st) fabs) as [res0 ops0].
-    destruct (match aget (s_kv st) K_NETS with Some b0 => dec_nets b0 | None => Some nets_reset end) as [ns|]; [|discriminate].
-    destruct (match aget (s_kv st) K_BIND with Some b0 => dec_binds b0 | None => Some [] end) as [bd|]; [|discriminate].
-    destruct (match aget (s_kv st) K_LABELS with Some b0 => dec_labels b0 | None => Some 0 end) as [lb|]; [|discriminate].
-    injection Hs as <- <-. cbn [r_fabs r_basic r_nets r_labels r_binds] in *.
     destruct (load_resump m' fabs) as [res' ops'] eqn:El.
-    exists (mkRam fabs bs ns lb bd res'), ops'. split; [reflexivity|].
-    split; [unfold committed_view; cbn [r_fabs r_basic r_nets r_labels r_binds]; tauto|].
+    repeat match type of Hs with
+    | match ?x with _ => _ end = Some _ => destruct x; try discriminate
+    end.
+    injection Hs as <- <-. cbn [r_fabs r_basic r_nets r_labels r_binds r_tz r_tts r_icd r_ota r_scenes] in *.
+    eexists _, ops'. split; [reflexivity|].
+    split; [unfold committed_view; cbn [r_fabs r_basic r_nets r_labels r_binds r_tz r_tts r_icd r_ota r_scenes]; tauto|].
     unfold Persist.load_resump in El. unfold m' in El at 1. rewrite aget_aset_same in El.
-    destruct (dec_res b) as [l|] eqn:Ed.
-    - split; [discriminate|]. right. exists l. split; [reflexivity|].
-      destruct (length (filter (fun r => amem fabs (fst r)) l) =? length l)%nat; injection El as <- <-;
+    destruct (dec_res b) as [lr|] eqn:Ed.
+    - split; [discriminate|]. right. exists lr. split; [reflexivity|].
+      destruct (length (filter (fun r => amem fabs (fst r)) lr) =? length lr)%nat; injection El as <- <-;
         cbn [Persist.replay fold_left kv_apply r_resump].
       + left. apply aget_aset_same.
       + right. eexists. apply aget_aset_same.
@@ -375,19 +410,20 @@ Section Thms.
     all: try (apply in_app_or in H; destruct H as [H|H]; [|destruct H as [H|[]]; discriminate]).
     all: try (right; eapply fabric_removed_keys;
               match goal with E : fabric_removed ?r ?g = (_, _) |- _ => rewrite E; cbn [snd]; eassumption end).
-    - (* factory reset: only removes *)
-      apply in_map_iff in H. destruct H as [x [E _]]. discriminate.
-    - (* restart *)
-      apply in_map_iff in H. destruct H as [x [E Hin]]. injection E as ->.
-      right. unfold Persist.startup in *.
-      repeat match goal with
-      | E : match ?x with _ => _ end = Some _ |- _ => destruct x eqn:?; try discriminate
-      | E : (let (_, _) := ?x in _) = Some _ |- _ => destruct x eqn:?
-      end.
-      match goal with E : Some _ = Some _ |- _ => injection E as <- <- end.
-      match goal with E : load_resump ?m ?f = (_, ?ops) |- _ =>
-        pose proof (load_resump_keys m f k b) as Hk; rewrite E in Hk; cbn [snd] in Hk; rewrite (Hk Hin) end.
-      cbn. tauto.
+    all: first
+      [ (* factory reset: only removes *)
+        apply in_map_iff in H; destruct H as [x [E _]]; discriminate
+      | (* restart: what start-up itself writes *)
+        apply in_map_iff in H; destruct H as [x [E Hin]]; injection E as ->;
+        right; unfold Persist.startup in *;
+        repeat match goal with
+        | E : match ?x with _ => _ end = Some _ |- _ => destruct x eqn:?; try discriminate
+        | E : (let (_, _) := ?x in _) = Some _ |- _ => destruct x eqn:?
+        end;
+        match goal with E : Some _ = Some _ |- _ => injection E as <- <- end;
+        match goal with E : load_resump ?m ?f = (_, ?ops) |- _ =>
+          pose proof (load_resump_keys m f k b) as Hk; rewrite E in Hk; cbn [snd] in Hk; rewrite (Hk Hin) end;
+        cbn; tauto ].
   Qed.
 
   Theorem writes_only_writable_keys : forall st o k b, Inv st ->
@@ -396,7 +432,7 @@ Section Thms.
     intros st o k b HI H. apply store_keys in H. unfold writable_keys. apply in_or_app.
     destruct H as [[f [-> Hm]]|H]; [left|right; exact H].
     apply in_map. apply in_fab_indices. apply amem_true in Hm. destruct Hm as [v Hv].
-    apply aget_In_keys in Hv. apply (i_range _ _ _ _ _ _ _ _ HI) in Hv. lia.
+    apply aget_In_keys in Hv. eapply i_range in Hv; [|exact HI]. lia.
   Qed.
 
 End Thms.
